@@ -176,7 +176,15 @@ impl<'a> Parser<'a> {
         let mut variant = None;
         let mut window_bits = None;
 
-        if has_braces && self.peek() == Some(',') {
+        if has_braces && level.is_none() && self.peek().is_some_and(|c| c.is_ascii_alphabetic()) {
+            // Variant as the first parameter (`z:{mpq}`, `z:{mpq,15}`): the
+            // form `Display` writes for a spec without a level
+            variant = Some(self.parse_zlib_variant()?);
+            if self.peek() == Some(',') {
+                self.consume(',')?;
+                window_bits = Some(self.parse_window_bits()?);
+            }
+        } else if has_braces && self.peek() == Some(',') {
             self.consume(',')?;
             if self.peek().is_some_and(|c| c.is_ascii_digit()) {
                 // Numeric: window bits
@@ -482,6 +490,36 @@ mod tests {
         let spec = ESpec::parse("n").expect("Test operation should succeed");
         assert_eq!(spec, ESpec::None);
         assert_eq!(spec.to_string(), "n");
+    }
+
+    #[test]
+    fn test_zlib_without_level_round_trips() {
+        // Every accepted parameter list without a level is written in a form
+        // that parses back to the same spec
+        for (input, written) in [
+            ("z:{,mpq}", "z:{mpq}"),
+            ("z:{mpq}", "z:{mpq}"),
+            ("z:{,mpq,15}", "z:{mpq,15}"),
+            ("z:{mpq,15}", "z:{mpq,15}"),
+            ("z:{,15}", "z:{,15}"),
+            ("z:{,9}", "z:{,9}"),
+            ("b:{1M=z:{,zlib},*=n}", "b:{1M=z:{zlib},*=n}"),
+        ] {
+            let spec = ESpec::parse(input).expect("Test operation should succeed");
+            assert_eq!(spec.to_string(), written);
+            assert_eq!(
+                ESpec::parse(written).expect("Test operation should succeed"),
+                spec
+            );
+        }
+        assert_eq!(
+            ESpec::parse("z:{,9}").expect("Test operation should succeed"),
+            ESpec::ZLib {
+                level: None,
+                variant: None,
+                window_bits: Some(9),
+            }
+        );
     }
 
     #[test]
